@@ -44,6 +44,8 @@ type linScenario struct {
 	noLin bool
 	// extra oracle
 	extra func(ls *linScenario, x *Exec, per [][]*Call) [][2]string
+	// boundDelta: added to the group's preemption bound (scenarios with many threads)
+	boundDelta int
 	// ids of the connections' clients (CLIENT UNBLOCK / KILL arguments "$id<i>" are substituted)
 }
 
@@ -57,7 +59,7 @@ func (ls *linScenario) scenario() *Scenario {
 			}
 		}
 	}
-	return &Scenario{Name: ls.name, Body: ls.body, Check: ls.check, TimerAlts: ls.timerAlts, MapOrder: mo}
+	return &Scenario{Name: ls.name, Body: ls.body, Check: ls.check, TimerAlts: ls.timerAlts, MapOrder: mo, BoundDelta: ls.boundDelta}
 }
 
 // subst replaces $id<i> by the client id of connection i
